@@ -90,7 +90,7 @@ def gen_cases(rng, tier, dflt):
             add('ovl', sw, None, c1, second(c1))
     return cases
 
-KEYS = ('I', 'O', 'D', 'WB', 'KP', 'DAX', 'RL', 'RD', 'C', 'CWB', 'KC', 'KS', 'FL', 'GH', 'FH', 'DH', 'WK')
+KEYS = ('I', 'O', 'D', 'WB', 'KP', 'DAX', 'RL', 'RD', 'C', 'CWB', 'KC', 'KS', 'FL', 'GH', 'FH', 'DH', 'WK', 'WA')
 _RND = ' '.join('%s=(\\S+)' % k for k in KEYS)
 RX = re.compile(r'^(\d+) ' + _RND + r' R=(\S+) \| ' + _RND + '$')
 
@@ -108,9 +108,10 @@ BITS = {'O': ZMO, 'D': ZMOD, 'WB': WBC, 'KP': KPV2, 'DAX': DAX, 'RL': ZMO, 'RD':
 NAMES.update({'RL': 'no-open (RELEASE answered ENOSYS)', 'RD': 'no-opendir (RELEASEDIR answered ENOSYS)', 'C': 'no-open (CREATE returned no handle)',
               'CWB': 'writeback flag rewriting on CREATE', 'KC': 'kill-priv on CREATE(O_TRUNC) of an existing file', 'KS': 'kill-priv on SETATTR(size)'})
 # handle-path probes (FL GH FH DH WK): further entry points that read the same switches
-BITS.update({'FL': ZMO, 'GH': ZMO, 'FH': ZMO, 'DH': ZMOD, 'WK': KPV2})
+BITS.update({'FL': ZMO, 'GH': ZMO, 'FH': ZMO, 'DH': ZMOD, 'WK': KPV2, 'WA': WBC})
 NAMES.update({'FL': 'no-open (FLUSH answered ENOSYS)', 'GH': 'no-open data path (GETATTR ignored the handle)', 'FH': 'no-open data path (FSYNC ignored the handle)',
-              'DH': 'no-opendir data path (READDIR ignored the handle)', 'WK': 'kill-priv on WRITE(WRITE_KILL_PRIV)'})
+              'DH': 'no-opendir data path (READDIR ignored the handle)', 'WK': 'kill-priv on WRITE(WRITE_KILL_PRIV)',
+              'WA': 'writeback flag rewriting on WRITE (O_APPEND of the request flags not applied to the descriptor)'})
 def normalise(layer, r):
     """GH / FH / DH are probed with a handle no OPEN ever returned.  'hl' = the handle-less path was taken, 'h' = the
     handle was looked up (and refused), 'na' = this layer does not let the probe tell.
@@ -142,7 +143,7 @@ def coq_round(r):
     def ch(s): return {'h': 'true', 'nh': 'false'}.get(s)
     def hl(s): return {'hl': '(Some true)', 'h': '(Some false)', 'na': 'None'}.get(s)
     tw = [up(r['RL']), up(r['RD']), ch(r['C']), tri(r['CWB']), tri(r['KC']), tri(r['KS'])]
-    hp = [up(r['FL']), hl(r['GH']), hl(r['FH']), hl(r['DH']), tri(r['WK'])]
+    hp = [up(r['FL']), hl(r['GH']), hl(r['FH']), hl(r['DH']), tri(r['WK']), tri(r['WA'])]
     parts = [coq_ires(r['I']), pr(r['O']), pr(r['D']), tri(r['WB']), tri(r['KP']), b(r['DAX'])]
     if any(p is None for p in parts + tw + hp) or int(r['I'].split(':')[1]) < 0: return None
     return '(mkR %s (mkW %s) (mkH %s))' % (' '.join(parts), ' '.join(tw), ' '.join(hp))
